@@ -88,11 +88,10 @@ theorem C14_total_jsonLike (s : Schema) (op : OperationDef) (vars : VarMap)
   C14_total_partial s op vars hclosed hop (jsonLikeFields_safe vars hvars)
 
 /-- the remaining panic of the list/object walk (typed maps, outside `safeB`): `$v: In` with
-    `map[string]int{"l": 1}` — the coerced `[]int` is not assignable to `int`. -/
+    `map[string]int{"l": 1}` — the coerced list is not assignable to `int` (`SetMapIndex`). -/
 theorem C14_total_counterexample_typedMap :
-    coerce schema (opWith (named "In")) (varsV (.map (.int .int) (.cons (str "l") (int 1) .nil)))
-      = .panic (setNotAssignableMsg (.slice (.int .int)) (.int .int)) := by
-  rfl
+    ∃ msg, coerce schema (opWith (named "In")) (varsV (.map (.int .int) (.cons (str "l") (int 1) .nil))) = .panic msg :=
+  ⟨_, rfl⟩
 
 /-- Absent variables take their defaults (1): every declared variable that has a default has an
     entry in the result — the hypothesis `DefaultsSupplied` of C15_precedence. -/
